@@ -17,7 +17,7 @@ import (
 func init() {
 	props["C02"] = func(rng *sx.Rng, thorough bool) {
 		keys := signKeyPool(thorough)
-		n := 300
+		n := 400
 		if thorough {
 			n = 8000
 		}
@@ -25,7 +25,12 @@ func init() {
 			g := newDocgen(rng, false)
 			penv := g.pipelineEnv()
 			g.penvNames = sortedKeys(penv)
-			doc := dMap(dkv{"steps", g.signableSteps(3, 4, false)})
+			steps := g.signableSteps(3, 4, false)
+			if rng.Chance(70) {
+				// keep documents without any command step rare
+				steps.l = append(steps.l, g.signableStep())
+			}
+			doc := dMap(dkv{"steps", steps})
 			if len(penv) > 0 && rng.Chance(60) {
 				e := dMap()
 				for _, k := range sortedKeys(penv) {
